@@ -113,8 +113,10 @@ def build_state(model, spec):
 
 def engine_class(name, td):
     from tenpy.algorithms import mpo_evolution, tdvp, tebd
-    if name == 'TEBD':
+    if name in ('TEBD', 'TEBDimag'):
         return tebd.TimeDependentTEBD if td else tebd.TEBDEngine
+    if name == 'RUE':
+        return tebd.RandomUnitaryEvolution
     if name == 'QRTEBD':
         if td:
             from tenpy.algorithms.algorithm import TimeDependentHAlgorithm
@@ -143,7 +145,9 @@ def engine_options(case, dt, N):
     if case.get('preserve_norm') is not None:
         opt['preserve_norm'] = case['preserve_norm']
     eng = case['engine']
-    if eng in ('TEBD', 'QRTEBD'):
+    if eng == 'RUE':
+        pass
+    elif eng in ('TEBD', 'QRTEBD', 'TEBDimag'):
         opt['order'] = case.get('order', 2)
         opt['max_delta_t'] = 1.e300
         if eng == 'QRTEBD':
@@ -193,18 +197,19 @@ class Recorder:
         rec = self
         undo = []
         try:
-            if rec.eng_name in ('TEBD', 'QRTEBD'):
+            if rec.eng_name in ('TEBD', 'QRTEBD', 'RUE', 'TEBDimag'):
                 cls = type(eng)
-                orig = cls.update_bond
-                had = 'update_bond' in cls.__dict__
+                meth = 'update_bond_imag' if rec.eng_name == 'TEBDimag' else 'update_bond'
+                orig = getattr(cls, meth)
+                had = meth in cls.__dict__
 
                 def update_bond(self_, i, U_bond):
                     idx = self_._update_index
                     err = orig(self_, i, U_bond)
                     rec.updates.append((int(idx[0]), int(idx[1])) if idx is not None else None)
                     return rec._subst(err)
-                cls.update_bond = update_bond
-                undo.append((cls, 'update_bond', orig if had else None))
+                setattr(cls, meth, update_bond)
+                undo.append((cls, meth, orig if had else None))
             elif rec.eng_name in ('TDVP2', 'TDVP1'):
                 orig_svd = tdvp_mod.svd_theta
 
